@@ -390,10 +390,12 @@ class PostingCategorizer(Categorizer):
         return i
 
     def key_to_name(self, i):
-        if i >= len(self.values):
-            return None
+        # Undo the reversal first: the "no value" marker and the rank of the
+        # first value are only recognizable on the un-reversed key
         if self.reverse:
             i = len(self.values) - i
+        if i >= len(self.values):
+            return None
         return self.values[i]
 
 
